@@ -12,6 +12,17 @@ def float_v(x):
     return {"k": "f", "repr": repr(float(x))}
 
 
+def extreme_points(names, rnd, n):
+    """coordinates at the edges of the double range (subnormal, tiny, huge) - most combinations overflow and are dropped by the
+    pre-screen; the ones whose exact intermediates stay in range must still give finite, correct results"""
+    vals = [5e-324, 1e-310, 2.0 ** -60, 3 * 2.0 ** -60, 1e-18, 1e-9, 1e9, 1e18, 1e150, -5e-324, -(2.0 ** -60), -1e-9]
+    return [{nm: float_v(rnd.choice(vals)) for nm in sorted(names)} for _ in range(n)]
+
+
+def near_one_bases():
+    return [{"k": "f", "repr": "1.0000000001"}, {"k": "f", "repr": repr(math.nextafter(1.0, 2.0))}, {"k": "f", "repr": "0.9999999999"}, {"k": "f", "repr": "1.001"}]
+
+
 def perturbed_points(names, rnd, n):
     """grid values +- tiny relative perturbations, and arbitrary floats (float layer only)"""
     base = [-32.0, -8.0, -2.0, -1.0, -0.5, 0.5, 1.0, 2.0, 3.0, 4.0, 9.0, 16.0, 27.0, 81.0, 243.0, 1024.0]
@@ -81,6 +92,22 @@ def replay(pid, path):
     return run(pid, "quick", 0)
 
 
+def edge_cases(add, rnd, tier):
+    """quotients / reciprocals / roots / logarithms at the edges of the double range, logarithm bases next to one"""
+    X, Y, C = gen.X, gen.Y, gen.C
+    shapes = [J.Bin("Divide", X, Y), J.Bin("Divide", C[1], X), J.Bin("Divide", C[1], J.KUn("NthPower", X, 2)), J.Un("Reciprocal", X), J.Mul(X, J.Un("Reciprocal", Y)),
+              J.Bin("Divide", J.Add(X, Y), J.Bin("Minus", X, Y)), J.KUn("NthRoot", X, 2), J.KUn("NthRoot", J.Bin("Divide", X, Y), 3), J.Bin("Divide", J.Const(1, 100000), Y),
+              J.BUn("Logarithm", X, gen.E_), J.Bin("Power", X, C[H_]), J.Mul(X, Y), J.Add(X, J.Bin("Divide", C[0], Y))]
+    for t in shapes:
+        add(t, pts=extreme_points(J.variables(t), rnd, 10 if tier == "quick" else 60))
+    for b in near_one_bases():
+        for t in (J.BUn("Logarithm", X, b), J.Mul(C[0], J.BUn("Logarithm", X, b)), J.BUn("Exponential", X, b), J.Add(J.BUn("Logarithm", J.Add(X, Y), b), C[1])):
+            add(t, pts=gen.grid(J.variables(t), [gen.q(-1), gen.q(0), gen.q(1, 2), gen.q(2)]))
+
+
+H_ = (1, 2)
+
+
 def cases_for(pid, tier, seed):
     """list of cases: dict(tree, share, mode, pts)"""
     if REPLAY is not None:
@@ -124,7 +151,9 @@ def cases_for(pid, tier, seed):
         for t in rnd.sample(trees, min(len(trees), nfl)) + gen.random_trees(seed * 7 + 2, nfl // 3, depth=3):
             if J.variables(t):
                 add(t, pts=perturbed_points(J.variables(t), rnd, 3))
+        edge_cases(add, rnd, tier)
     if pid == "C02":
+        edge_cases(add, rnd, tier)
         bu = gen.boundary_universe()
         for t in bu:
             add(t, pts=gen.grid(J.variables(t), gen.GT if tier == "thorough" else [gen.q(-1), gen.q(0), gen.q(1, 2), gen.q(1), gen.q(2)]))
